@@ -127,6 +127,7 @@ def cmd_check(pid: str, tier: str) -> int:
             print(f"VIOLATION property={pid} replay={path}", flush=True)
             violations_out.append({"class": viols[0][0], "replay": path, "message": viols[0][1], "regression": True})
     minimised = 0
+    unreproduced: list[str] = []
     for r in results:
         for cls in sorted(r.viol):
             idx, cnt, msg = r.viol[cls]
@@ -138,8 +139,26 @@ def cmd_check(pid: str, tier: str) -> int:
             case = scn.make_case(seed, idx, tier)
             got = runner.violation_classes(scn, case)
             if cls not in got:
-                print(f"HARNESS-ERROR property={pid} violation {cls} of case {idx} did not reproduce (got {got})")
-                return 2
+                # seen in a pool worker, not here: the outcome depended on earlier runs in that worker.  Only a case that
+                # fails on its own in a fresh interpreter can be reported.
+                found = None
+                for alt in [idx] + [i for i in r.viol_more.get(cls, []) if i != idx]:
+                    alt_case = scn.make_case(seed, alt, tier)
+                    alt_path = runner.write_replay(scn, seed, alt, cls, msg, alt_case, alt_case, REPLAY_DIR)
+                    rc2, out2 = runner.fresh_replay(alt_path)
+                    if rc2 == 1 and f"class={cls}" in out2:
+                        found = (alt, alt_path)
+                        break
+                    os.unlink(alt_path)
+                if found is None:
+                    unreproduced.append(cls)
+                    print(f"UNREPRODUCED property={pid} class={cls} case={idx}: seen in a pool worker but not when run on its own (got {got}) - state leaks between runs in one process")
+                    continue
+                print(f"violation class={cls} cases={cnt} first_case={found[0]} minimised_in=0(unminimised:outcome_depends_on_process_state)_execs: {msg}")
+                print(f"VIOLATION property={pid} replay={found[1]}", flush=True)
+                violations_out.append({"class": cls, "cases": cnt, "first_case": found[0], "replay": found[1], "message": msg})
+                exit_code = 1
+                continue
             budget = (3000, 30.0) if tier == "quick" else (6000, 60.0)
             if minimised >= 4:
                 budget = (300, 3.0)  # many classes usually share one cause: spend the budget on the first few
@@ -148,8 +167,22 @@ def cmd_check(pid: str, tier: str) -> int:
             path = runner.write_replay(scn, seed, idx, cls, msg, small, case, REPLAY_DIR)
             rc, out_text = runner.fresh_replay(path)
             if rc != 1 or f"class={cls}" not in out_text:
-                print(f"HARNESS-ERROR property={pid} replay of {path} in a fresh interpreter did not reproduce {cls}:\n{out_text[-2000:]}")
-                return 2
+                # One run must be a pure function of its case.  A violation seen in the pool that a fresh interpreter does not
+                # show means state survived from an earlier run in the same process (a cache or a module-level object in the
+                # code under test).  Look for a case of the class that fails on its own, and report that one unminimised.
+                found = None
+                for alt in [idx] + [i for i in r.viol_more.get(cls, []) if i != idx]:
+                    alt_case = scn.make_case(seed, alt, tier)
+                    alt_path = runner.write_replay(scn, seed, alt, cls, msg, alt_case, alt_case, REPLAY_DIR)
+                    rc2, out2 = runner.fresh_replay(alt_path)
+                    if rc2 == 1 and f"class={cls}" in out2:
+                        found = (alt, alt_path)
+                        break
+                if found is None:
+                    print(f"HARNESS-ERROR property={pid} replay of {path} in a fresh interpreter did not reproduce {cls} (nor did {len(r.viol_more.get(cls, [])) + 1} unminimised cases of the class: state leaks between runs in one process):\n{out_text[-2000:]}")
+                    return 2
+                idx, path = found
+                execs = f"0(unminimised:in-process_minimisation_did_not_carry_over_to_a_fresh_interpreter)_after_{execs}"
             print(f"violation class={cls} cases={cnt} first_case={idx} minimised_in={execs}_execs: {msg}")
             print(f"VIOLATION property={pid} replay={path}", flush=True)
             violations_out.append({"class": cls, "cases": cnt, "first_case": idx, "replay": path, "message": msg})
@@ -166,6 +199,10 @@ def cmd_check(pid: str, tier: str) -> int:
         zero = [k for k, v in sorted(r.probes.items()) if v == 0]
         if zero:
             print(f"  warning: probes stuck at zero in {r.scn.name}: {zero}")
+    if unreproduced and exit_code == 0:
+        # nothing that can be replayed, yet the pool saw violations: the runs were not independent of one another
+        print(f"HARNESS-ERROR property={pid} {len(unreproduced)} violation classes were seen only under state left by earlier runs and none could be reproduced on its own")
+        return 2
     return exit_code
 
 
